@@ -5,12 +5,14 @@ import Driver.Cond
 import Driver.Sym
 import Driver.TwoPass
 import Driver.Sim
+import Driver.SimX
 import Driver.Mem
 import Driver.FileIO
 import Driver.Det
 import Driver.Util
 import Driver.Listing
 import Driver.Macro
+import Driver.Link
 
 def dispatch (line : String) : String :=
   match (line.trimAscii.toString.splitOn " ").filter (· ≠ "") with
@@ -29,7 +31,9 @@ def dispatch (line : String) : String :=
   | "blk" :: args => Driver.Cond.handleBlk args
   | "sym" :: args => Driver.Sym.handle args
   | "twopass" :: args => Driver.TwoPass.handle args
+  | "twopass430" :: args => Driver.TwoPass.handle430 args
   | "sim" :: args => Driver.Sim.handle args
+  | "simx" :: args => Driver.SimX.handle args
   | "simrun" :: args => Driver.Sim.handleRun args
   | "arch" :: args => Driver.Sim.handleArch args
   | "dislen" :: args => Driver.Sim.handleDisLen args
@@ -44,6 +48,7 @@ def dispatch (line : String) : String :=
   | "unum" :: args => Driver.Util.handleNum args
   | "lst" :: args => Driver.Listing.handle args
   | "mexp" :: args => Driver.Macro.handleMexp args
+  | "link" :: args => Driver.Link.handle args
   | _ => "bad-op"
 
 partial def loop (h : IO.FS.Stream) (out : IO.FS.Stream) : IO Unit := do
